@@ -53,8 +53,10 @@ def main():
         engines=[
             dict(name='tick', path='vsim/world.py', kind_free_text='discrete-event single-threaded engine: one node tick / byte delivery / fault per event, virtual clock, SimNet, SimFS',
                  serves_properties=[c['property_id'] for c in checks if c['engine'] == 'tick']),
-            dict(name='framing', path='vsim/props/c13.py', kind_free_text='two real TcpConnection objects over SimNet, op-list interpreter', serves_properties=['C13']),
+            dict(name='framing', path='vsim/props/c13.py', kind_free_text='two real TcpConnection objects over SimNet (op-list interpreter, reconnect epochs) and poller batches over the repository\'s PollPoller/SelectPoller', serves_properties=['C13']),
             dict(name='journal', path='vsim/props/c08.py', kind_free_text='real FileJournal over SimFS with enumerated kill points', serves_properties=['C08']),
+            dict(name='tick+sleepers', path='vsim/props/c16.py', kind_free_text='tick engine plus cooperative sleepers: the lock manager\'s real prolongation thread runs only from one time.sleep() to the next, released by the scheduler', serves_properties=['C16']),
+            dict(name='thread', path='vsim/thr.py', kind_free_text='baton-passing real threads (auto-tick threads, caller threads, network pump): exactly one runs, the seeded scheduler picks the next at sys.settrace line/opcode events and at blocking points', serves_properties=['C19']),
         ],
         checks=checks,
         not_applicable=na,
